@@ -67,6 +67,7 @@ func b2i(b bool) int {
 // ID requirement carry their entry's id.
 func arbitraryManager(n int) *Manager {
 	m := NewManager()
+	handedOut = nil
 	names := [...]string{"e0", "e1", "e2", "e3"}
 	nprim := 0
 	for i := 0; i < n; i++ {
@@ -91,8 +92,23 @@ func arbitraryManager(n int) *Manager {
 	for i := 0; i < verifrt.Choice("extra", 3); i++ {
 		x := verifrt.Uint32([...]string{"x0", "x1"}[i])
 		m.unavailableKeyIDs[x] = true
+		handedOut = append(handedOut, x)
+	}
+	for _, e := range m.entries {
+		handedOut = append(handedOut, e.fixedID)
 	}
 	return m
+}
+
+// handedOut: every id the manager has handed out so far (live or deleted) in the arbitrary
+// pre-state. Part of the inductive invariant: none of them ever becomes available again, so
+// that ids handed out by one manager stay pairwise distinct over its whole history (C20).
+var handedOut []uint32
+
+func checkNeverReissued(m *Manager, what string) {
+	for _, x := range handedOut {
+		verifrt.Assert(m.unavailableKeyIDs[x], what+": an id that was handed out (even if its key was deleted) stays unavailable")
+	}
 }
 
 func checkInv(m *Manager, what string) {
@@ -248,6 +264,7 @@ func managerStep(op int) {
 	default: // Handle only
 	}
 	checkInv(m, "post")
+	checkNeverReissued(m, "post")
 	checkHandle(m, "post")
 	verifrt.Reach("end")
 }
